@@ -365,10 +365,15 @@ func (r *runner) barrier() error {
 		_, lkp, _, ok := r.srv.Pipes.VC10PipeState(r.barName, r.barSrc)
 		return ok && lkp == end
 	}) {
-		return fmt.Errorf("barrier: the sentinel notification was not delivered within %v", deadline)
+		// a verdict, not a harness failure: the write was acknowledged and its WriteEvent never reached a pipe whose
+		// source condition it satisfies
+		r.fail("pipe-notification-not-delivered", fmt.Sprintf("a write to partition barrier=b was not notified to pipe %s (FROM barrier=b) within %v: LastKnwnPos did not reach the written position", r.barName, deadline))
+		return errVerdict
 	}
 	return nil
 }
+
+var errVerdict = fmt.Errorf("scenario ended by a verdict")
 
 // expectedStarts: how many workers the notifications of a write to source s will start
 func (r *runner) expectedStarts(s int) int {
@@ -1103,6 +1108,10 @@ func (r *runner) finish() ([]Case, error) {
 			out = append(out, cs)
 		}
 	}
+	if len(out) == 0 && r.viol != nil {
+		// the scenario ended before any pipe existed: the verdict still needs a case to travel with
+		out = append(out, Case{Coq: GApp("KSrc", "[]", GNat(0), "[]", "[]", "[]"), Replay: sc, Stream: sc.Stream, Key: fmt.Sprintf("%p/none", sc)})
+	}
 	// the verdict of the scenario is attached to every case of it
 	for i := range out {
 		out[i].Oracle = r.viol
@@ -1429,7 +1438,7 @@ func runScenario(sc *Scenario) ([]Case, error) {
 			RemoveAll(r.dir)
 		}
 	}()
-	if err := r.run(); err != nil {
+	if err := r.run(); err != nil && err != errVerdict {
 		return nil, err
 	}
 	if r.viol != nil {
